@@ -240,7 +240,12 @@ def correspondence_x(ctx, B, n_random, stage=5):
     for _ in range(n_random):
         xd = x_doc(rng, B)
         n = rng.choice([3, 6, 10, 14])
-        hist.append((xd, [x_op(rng, xd[0][0], xd[0][1], B, pool) for _ in range(n)]))
+        ops = [x_op(rng, xd[0][0], xd[0][1], B, pool) for _ in range(n)]
+        if rng.random() < 0.5:
+            # undo the last few steps and redo them: every record's undo AND redo-after-undo gets exercised
+            m = rng.choice([1, 2, 3, 4])
+            ops += [('U', [])] * m + [('R', [])] * m
+        hist.append((xd, ops))
     dis = []; total = 0; nontriv = set(); opcount = {}; outcomes = {'all-ok': 0, 'err': 0, 'panic': 0}
     model_errors = []; skipped = [0]
     for rnd in range(3):
